@@ -66,27 +66,30 @@ func labelValuesObs(ctx context.Context, srv storepb.StoreServer, r aReq, name s
 
 // storeObs makes the three calls of C07 on one store with the same selectors, time range and
 // replica-label list: Series, LabelNames, and LabelValues for every name of the universe.
-func storeObs(ctx context.Context, srv storepb.StoreServer, r aReq, rbatch int) map[string]any {
+func storeObs(ctx context.Context, srv storepb.StoreServer, r aReq, rbatch int, skip bool) map[string]any {
 	vals := make([]map[string]any, 0, len(allNames))
 	for _, n := range allNames {
 		vals = append(vals, labelValuesObs(ctx, srv, r, n))
 	}
 	return map[string]any{
-		"series": seriesObs(world.CallSeries(ctx, srv, seriesReq(r, rbatch))),
+		"series": seriesObs(world.CallSeries(ctx, srv, seriesReqOpt(r, rbatch, skip, false))),
 		"names":  labelNamesObs(ctx, srv, r),
 		"values": vals,
 	}
 }
 
 // TestC07: label name/value APIs cover every label seen by Series, on the TSDB store, the bucket
-// store (lazy expanded postings on/off) and the proxy over both.
+// store (lazy expanded postings on/off), the proxy over both, and (phase 2) the PrometheusStore in
+// front of a real Prometheus API (old/new label calls, streamed/sampled remote read) and the
+// receiver's MultiTSDB proxy; SkipChunks on/off.
 func TestC07(t *testing.T) {
 	rnd := vt.Rand()
 	cache := &worldCache{}
 	defer cache.close()
 	gen := func(yield func(vt.Case)) {
 		cfg := func(rnd *rand.Rand) map[string]any {
-			return map[string]any{"frame": 0, "rbatch": []int{0, 0, 1, 2}[rnd.Intn(4)], "lazy": rnd.Intn(2) == 0}
+			return map[string]any{"frame": 0, "rbatch": []int{0, 0, 1, 2}[rnd.Intn(4)], "lazy": rnd.Intn(2) == 0,
+				"skip": rnd.Intn(4) == 0, "promold": rnd.Intn(3) == 0, "samples": rnd.Intn(3) == 0}
 		}
 		genWorldCases(t, rnd, vt.Pick(25, 200), vt.Pick(15, 100), vt.Pick(40, 30), vt.Pick(25, 20), cfg, yield)
 	}
@@ -104,12 +107,22 @@ func TestC07(t *testing.T) {
 			t.Fatalf("bucket store: %v", err)
 		}
 		px := b.proxy(ts, bs)
+		ps, err := b.promStore(vt.Bool(cfg["promold"]), vt.Bool(cfg["samples"]))
+		if err != nil {
+			t.Fatalf("prometheus store: %v", err)
+		}
+		rc, err := b.receiver()
+		if err != nil {
+			t.Fatalf("receiver: %v", err)
+		}
 		ctx := context.Background()
-		rb := vt.Int(cfg["rbatch"])
+		rb, skip := vt.Int(cfg["rbatch"]), vt.Bool(cfg["skip"])
 		return vt.Event{
-			"tsdb":   storeObs(ctx, ts, req, rb),
-			"bucket": storeObs(ctx, bs, req, rb),
-			"proxy":  storeObs(ctx, px, req, rb),
+			"tsdb":   storeObs(ctx, ts, req, rb, skip),
+			"bucket": storeObs(ctx, bs, req, rb, skip),
+			"proxy":  storeObs(ctx, px, req, rb, skip),
+			"prom":   storeObs(ctx, ps, req, rb, skip),
+			"recv":   storeObs(ctx, rc.Proxy, req, rb, skip),
 		}
 	})
 }
